@@ -99,6 +99,10 @@ template<typename T> static T zero_canon(const T& v) { return v; }
 static inline float zero_canon(float v) { return v == 0 ? 0.0f : v; }
 static inline double zero_canon(double v) { return v == 0 ? 0.0 : v; }
 
+// trace of (n : retained items) written by the continuation every few updates; how many items a sketch retains at any
+// moment is a function of the sizes alone (no coin is involved), so it is compared even for REQ in estimation mode
+static std::string g_cont_trace;
+
 template<typename T, typename S>
 static std::string observe_q(const S& s, bool reduced) {
   Obs o;
@@ -112,7 +116,7 @@ static std::string observe_q(const S& s, bool reduced) {
   uint64_t total = 0;
   for (auto it = s.begin(); it != s.end(); ++it) { items.push_back(std::pair<T, uint64_t>((*it).first, (*it).second)); total += (*it).second; }
   o.add("total_weight", total);
-  if (reduced) return o.s;
+  if (reduced) { o.add("retained", s.get_num_retained()); return o.s; }
   o.add("retained", s.get_num_retained()).add("iterated", static_cast<uint64_t>(items.size())).add("estimation", s.is_estimation_mode());
   Kind<T>::extra(o, s);
   // equivalent items (e.g. -0.0 and +0.0) are further ordered by weight and printed form, so the read-out does not depend on their order
@@ -164,9 +168,13 @@ static void case_q(Rng& r) {
   typedef Kind<T> K;
   typedef typename K::S S;
   typedef typename Item<T>::SerDe SD;
-  const unsigned cls = static_cast<unsigned>(r.below(12));
+  const unsigned cls = static_cast<unsigned>(r.below(13));
   // (classic: the base buffer of the equivalent-items class must be able to hold more than 16 items)
-  const uint16_t k = (C09_Q == 3 && cls == 8) ? static_cast<uint16_t>(32u << r.below(2)) : K::gen_k(r);
+  // (REQ section-shrink class: k whose section size, divided by sqrt(2), is not near an even integer, so that rounding to
+  //  the nearest even number and truncating disagree: 10 -> 7.07, 14 -> 9.9, 22 -> 15.6, 30 -> 21.2, 50 -> 35.4, 58 -> 41.0, 70 -> 49.5, 90 -> 63.6)
+  static const uint16_t shrink_k[] = {10, 14, 22, 30, 50, 58, 70, 90};
+  const bool shrink_cls = C09_Q == 2 && cls == 10;
+  const uint16_t k = shrink_cls ? shrink_k[r.below(8)] : (C09_Q == 3 && cls == 8) ? static_cast<uint16_t>(32u << r.below(2)) : K::gen_k(r);
   const bool hra = r.coin();
   // capacity scale: the first compaction happens around 2k (KLL k.., REQ ~ 2*k*sections, classic 2k)
   const uint64_t unit = C09_Q == 2 ? 6ULL * k : 2ULL * k;
@@ -182,13 +190,14 @@ static void case_q(Rng& r) {
     case 7: n = 5 * unit + r.below(G().thorough() ? 200 * unit : 40 * unit); desc = "estimation-deep"; break;
     case 8: n = 17 + r.below(3 * unit); desc = "equivalent-items"; break;
     case 9: n = r.chance(0.2) ? 1024 : static_cast<uint64_t>(r.range(1000, 1023)); desc = "huge-n"; break;   // doubled below to just below / on / above 2^32   // many items that compare equal (floats: -0.0 / +0.0 differ bitwise)
+    case 10: if (shrink_cls) { n = 100ULL * k + r.below(900ULL * k); desc = "section-shrink"; } else desc = "post-merge"; break;   // level 0 has halved its section size at least once
     default: desc = "post-merge"; break;
   }
   const std::string fam = std::string(K::name()) + "<" + Item<T>::name() + ">";
   pin_random(r.next());
   std::unique_ptr<S> sk(new S(K::make(k, hra)));
   bool uniform_k = true;
-  if (cls <= 7) {
+  if (cls <= 7 || shrink_cls) {
     for (uint64_t i = 0; i < n; ++i) sk->update(Item<T>::gen(r));
   } else if (cls == 8) {
     for (uint64_t i = 0; i < n; ++i) sk->update(Item<T>::zeroish(r));
@@ -244,20 +253,45 @@ static void case_q(Rng& r) {
   if (uniform_k) o.max_size = [k](const S& s) { return static_cast<long long>(kll_max<T>(k, s.get_n())); };
 #endif
   o.observe = [](const S& s) { return observe_q<T>(s, false); };
-  o.observe_after = [](const S& s) { return observe_q<T>(s, K::reduced_after(s)); };
-  o.cont = [k, hra, unit](S& s, Rng& cr) {
-    const uint64_t m = cr.chance(0.3) ? cr.below(6) : cr.below(3 * unit);
-    for (uint64_t i = 0; i < m; ++i) s.update(Item<T>::gen(cr));
+  o.observe_after = [](const S& s) { return observe_q<T>(s, K::reduced_after(s)) + "trace=" + g_cont_trace + ";"; };
+  // a long continuation (several nominal capacities) for about a third of the cases that already compact, and always for the shrink class
+  const bool long_cont = shrink_cls || (sk->is_estimation_mode() && cls != 9 && r.chance(0.3));
+  o.cont = [k, hra, unit, long_cont](S& s, Rng& cr) {
+    g_cont_trace.clear();
+    const uint64_t m = long_cont ? 4 * unit + cr.below(4 * unit) : (cr.chance(0.3) ? cr.below(6) : cr.below(3 * unit));
+    for (uint64_t i = 0; i < m; ++i) {
+      s.update(Item<T>::gen(cr));
+      if ((i & 7) == 7 || i + 1 == m) g_cont_trace += std::to_string(s.get_n()) + ":" + std::to_string(s.get_num_retained()) + ",";
+    }
+    if (long_cont) count(std::string(K::name()) + "_long_continuations");
     if (cr.chance(0.5)) {
       S other(K::make(cr.chance(0.7) ? k : K::gen_k(cr), hra));
       const uint64_t m2 = cr.below(4 * unit);
       for (uint64_t i = 0; i < m2; ++i) other.update(Item<T>::gen(cr));
       if (cr.coin()) s.merge(other); else { other.merge(s); s = other; }
+      g_cont_trace += "merged " + std::to_string(s.get_n()) + ":" + std::to_string(s.get_num_retained()) + ",";
     }
     if (K::reduced_after(s)) count("req_continuation_reduced_compare"); else count(std::string(K::name()) + "_continuation_full_compare");
   };
   (void)uniform_k;
   const Result res = roundtrip(o, *sk, r, G().cur_desc);
+#if C09_Q == 2
+  if (res.ok && std::is_arithmetic<T>::value && res.image.size() >= 8 && res.image[0] == 4 && !(res.image[3] & 4)) {
+    // level-0 compactor of an estimation-mode image: [state u64][section_size_raw f32][lg_weight u8][num_sections u8]...
+    const size_t off = 8 + 8 + 2 * sizeof(T);
+    if (res.image.size() >= off + 14) {
+      float raw; memcpy(&raw, &res.image[off + 8], 4);
+      const unsigned sections = res.image[off + 13];
+      if (raw < static_cast<float>(k)) {
+        count("req_restored_after_section_shrink");
+        const uint64_t nominal = 2ULL * sections * (static_cast<uint64_t>(std::lround(raw / 2)) * 2);
+        if (long_cont && 4 * unit >= 2 * nominal) count("req_shrunk_continued_2x_nominal_capacity");
+        const uint32_t ne = static_cast<uint32_t>(std::lround(raw / 2)) * 2, tr = static_cast<uint32_t>(raw) & ~1u;
+        if (ne != tr) count("req_shrunk_section_not_near_even");
+      }
+    }
+  }
+#endif
   if (has_long && res.ok && res.image.size() > 65536) count(std::string(K::name()) + "_long_string_in_image");
 }
 
